@@ -336,12 +336,73 @@ def restrict(thorough, cfg, devs, p, k):
     return False
 
 
+def many_finds(args):
+    """many FindService entries for one requester inside one collection window (one SD message with N entries, a burst of
+    N datagrams, unicast and multicast with a fixed response delay), three ready instances: every entry is answered by
+    every matching instance, N x 3 offers reach the requester, none is lost in a full queue"""
+    s, how, channel = args
+    from ..vloop import VLoop
+    viols = []
+    n = 0
+    for count in (1, 16, 17, 47, 48, 49, 50, 64, 97, 98, 150, 255):
+        loop = VLoop().install()
+        seam = RandomSeam(Choice(default=0.0))
+        seam.__enter__()
+        try:
+            t = timings(INITIAL_DELAY_MIN=0, INITIAL_DELAY_MAX=0, REPETITIONS_MAX=0, REPETITIONS_BASE_DELAY=0.125,
+                        CYCLIC_OFFER_DELAY=1, ANNOUNCE_TTL=3, SEND_COLLECTION_TIMEOUT=C,
+                        REQUEST_RESPONSE_DELAY_MIN=2.0 ** -5, REQUEST_RESPONSE_DELAY_MAX=2.0 ** -5)
+            prot = make_sd(loop, t)
+            for iid in (1, 2, 3):
+                opts = (hdr.IPv4EndpointOption(ipaddress.IPv4Address("192.0.2.1"), hdr.L4Protocols.UDP, 30500 + iid),)
+                prot.announcer.announce_service(sd.ServiceInstance(
+                    cfg_.Service(s, iid, 1, 0, options_1=opts, eventgroups=frozenset({5})), sd.ServerServiceListener(), prot.announcer, t))
+            prot.announcer.start()
+            loop.run_until(1.25)
+            prot.transport.sent.clear()
+            ent = ("find", s, 0xFFFF, 0xFF, 3, 0xFFFFFFFF, (), ())
+            if how == "one-message":
+                prot.datagram_received(refcodec.sd_message(1, [ent] * count), REQ, bool(channel))
+            else:
+                for k in range(count):
+                    prot.datagram_received(refcodec.sd_message(1 + k, [ent]), REQ, bool(channel))
+            loop.run_until(1.25 + 0.5)
+            n += 1
+            per = {1: 0, 2: 0, 3: 0}
+            late = 0
+            for tt, it, data, addr in prot.transport.sent:
+                if addr != REQ:
+                    continue
+                for m in refcodec.dec_sd_datagram(data):
+                    for e in m["entries"]:
+                        if e[0] == "offer" and e[1] == s and e[4] != 0:
+                            per[e[2]] = per.get(e[2], 0) + 1
+                            if tt > 1.25 + (2.0 ** -5 if channel else 0) + C + 2 ** -10:
+                                late += 1
+            if any(v != count for v in per.values()) or late:
+                viols.append(("answer", "missing-many-finds" if any(v < count for v in per.values()) else "count-many-finds",
+                              f"{count} FindService entries ({how}, {'multicast' if channel else 'unicast'}) for three ready "
+                              f"instances: unicast offers per instance {per}, expected {count} each; {late} late", count))
+        except Exception as e:  # noqa: BLE001
+            viols.append(("no-exception", f"many-finds-{type(e).__name__}", f"{count} finds ({how}): {type(e).__name__}: {e}", count))
+        finally:
+            seam.__exit__(None, None, None)
+            loop.dispose()
+    return n, viols
+
+
 def check(ctx):
     import functools
     allc = cfgs(ctx)
     res, viols = e2.search(ctx, Sys, allc, 4, restrict=functools.partial(restrict, ctx.thorough))
     samples = core.Samples()
     s, s2 = sids(ctx.seed)
+    mjobs = [(s, how, ch) for how in ("one-message", "burst") for ch in (0, 1)]
+    nmany = 0
+    for job, (k, mv) in zip(mjobs, core.pmap(many_finds, mjobs, 1)):
+        nmany += k
+        for clause, disc, detail, count in mv:
+            viols.append(core.Violation(ctx.prop, clause, disc, dict(many_finds=list(job), count=count), detail=detail))
     samples.add(dict(cfg="set C", devs=[[1.375, "post", ["find", 1, s, 0xFFFF, 2, 0xFFFFFFFF]]]), "wildcard find, multicast")
     samples.add(dict(cfg="set A lifecycle", devs=[[1.0, "pre", ["ann-stop"]], [1.0 + 2 ** -10, "pre", ["ann-start"]],
                                                   [1.125, "pre", ["find", 0, s, 1, 1, 0]]]), "find after restart")
@@ -349,7 +410,7 @@ def check(ctx):
         states=res.runs, transitions=res.runs, traces_validated_against_impl=res.runs, samples=samples.out(),
         runs=res.runs, runs_by_deviation_count=res.by_level, deviation_bound_completed=res.completed_k,
         configurations=len(allc), placements_discovered=res.instants, distinct_outcomes=len(res.outcomes),
-        find_variants=len(find_menu(s, s2)) * 2, caps_hit=[res.capped] if res.capped else [],
+        find_variants=len(find_menu(s, s2)) * 2, many_finds_cases=nmany, caps_hit=[res.capped] if res.capped else [],
         exhaustive=res.capped is None,
         note="a run holds one FindService, or two in the patterns find-stop-start-find and multicast find-unicast find(-stop); k counts placed events (find, stop, start)",
     )
@@ -361,4 +422,9 @@ def check(ctx):
 
 
 def replay(ctx, body):
+    if "many_finds" in body["case"]:
+        n, mv = many_finds(tuple(body["case"]["many_finds"]))
+        for v in mv:
+            print("FAILS:", v[:3])
+        return 1 if mv else 0
     return e2.replay_case(Sys, body)
